@@ -229,6 +229,44 @@ def b_contract3(c, P):
     return A[ix[a[0]], ix[a[1]]] * v[ix[b]] * w[ix[d]] * ufl.dx(c.mesh())
 
 
+@base(
+    "slice_contract",
+    pat=("index-pattern", vals("col0", "row0", "col1", "row1", "diag")),
+)
+def b_slice_contract(c, P):
+    # a slice leaves a free (renumbered) index next to a fixed index inside ONE multi-index:
+    # inner(A[:, 0], v) vs inner(A[0, :], v) differ only in which position is fixed
+    A = c.coef("A", tensor_space(c))
+    v = c.coef("v", vector_space(c))
+    pat = P["pat"]
+    if pat == "diag":
+        i = c.idx("i")
+        s = ufl.as_vector(A[i, i] * v[0] + 0 * v[i], i) if False else ufl.as_vector([A[0, 0], A[1, 1]])
+    else:
+        k = int(pat[-1])
+        s = A[:, k] if pat.startswith("col") else A[k, :]
+    return ufl.inner(s, v) * ufl.dx(c.mesh())
+
+
+@base(
+    "free_vs_fixed",
+    pat=("index-pattern", vals("i0", "0i", "i1", "1i", "ij_ji")),
+)
+def b_free_vs_fixed(c, P):
+    # component tensors whose inner multi-index mixes the first free index with fixed indices
+    A = c.coef("A", tensor_space(c))
+    B = c.coef("B", tensor_space(c))
+    v = c.coef("v", vector_space(c))
+    i, j = c.idx("i"), c.idx("j")
+    pat = P["pat"]
+    if pat in ("i0", "0i", "i1", "1i"):
+        k = int(pat.replace("i", ""))
+        e = A[i, k] if pat[0] == "i" else A[k, i]
+        return ufl.dot(ufl.as_vector(e, i), v) * ufl.dx(c.mesh())
+    e = A[i, j] if pat == "ij_ij" else A[j, i]
+    return ufl.inner(ufl.as_tensor(e, (i, j)), B) * ufl.dx(c.mesh())
+
+
 @base("as_tensor_order", order=("index-pattern", vals("ij", "ji")))
 def b_as_tensor(c, P):
     A = c.coef("A", tensor_space(c))
